@@ -62,7 +62,7 @@ def run(rep: Report, ctx: Any) -> str:
                 rep.check(res == {want}, "R10.1", f"{short(m)}[no_optional={no_opt},required={req}]",
                           f"type string {'must' if want else 'must not'} mention Unset here; paths give {sorted(res)}",
                           where(m, m.node), lhs=sorted(res), rhs=[want])
-    rep.floor("get_type_string_implementations", n_impl, 5)
+    rep.floor("get_type_string_implementations", n_impl, 2)
     ts = proto.methods.get("to_string")
     rep.require(ts, "PropertyProtocol.to_string")
     for has_default in (False, True):
@@ -140,7 +140,7 @@ def run(rep: Report, ctx: Any) -> str:
                                      f"(e.g. {env})", where=f"{PKG}/templates/{tn}:{test.lineno}", lhs=expr_text(test),
                                      rhs="skipped only when property.required")
                             break
-    rep.floor("unset_handling_macros", n_macros, 24)
+    rep.floor("unset_handling_macros", n_macros, 13)
 
     # ---- R10.3 -------------------------------------------------------------------------------------------------------
     mt = jx.templates.get("model.py.jinja")
@@ -157,10 +157,9 @@ def run(rep: Report, ctx: Any) -> str:
             pv = f"{fr.loops[-1]}[*]"
             n_w += 1
             names = tplq.guard_atoms(fr)
-            uncond_possible = False
             # is this write under a python-level `if ... is not UNSET:` ?  look at the preceding data fragment
             prev = _prev_data(td.body, fr.node)
-            py_guarded = prev is not None and "is not UNSET" in prev
+            py_guarded = prev is not None and _tests_unset(prev)
             if not py_guarded:
                 ok = tplq.implies(fr, f"{pv}.required", True)
                 rep.check(ok, "R10.3", f"model.py.jinja::_to_dict::unconditional-write#{n_w}",
@@ -171,27 +170,41 @@ def run(rep: Report, ctx: Any) -> str:
                 rep.check(ok, "R10.3", f"model.py.jinja::_to_dict::guarded-write#{n_w}",
                           "the UNSET-guarded write is not restricted to non-required properties (a required key could be omitted)",
                           where=f"{PKG}/templates/model.py.jinja:{fr.line}", lhs=[g for g, _ in fr.guards], rhs="implies not property.required")
-    rep.floor("to_dict_key_writes", n_w, 2)
+    rep.floor("to_dict_key_writes", n_w, 1)
     # every property is covered by one of the two writes: required -> update, not required -> guarded
     # from_dict pops
-    n_p = 0
-    kinds_seen = set()
-    for fr in _frags(mt.tree.body, mt, sets=True):
-        if fr.kind != "set" or "d.pop(" not in fr.text or not fr.loops:
+    # a pop site is an expression (of a `set` or of an output) that spells the text `d.pop(`; what it evaluates to is decided
+    # by the conditions it sits under AND the conditional expressions inside it (`'")' if required else '", UNSET)'` is the same
+    # decision as an if/else around two `set`s): every valuation of those conditions gives one *form* of the pop, and the form
+    # with the UNSET default must be the one of the non-required properties, whatever construct takes the decision.
+    allfr = list(_frags(mt.tree.body, mt, sets=True))
+    tev = _TplEval(allfr)
+    forms: list[tuple[int, bool, bool, tplq.Frag, str]] = []   # (site, property.required, UNSET default, fragment, text)
+    named: dict[int, bool] = {}
+    for i, fr in enumerate(allfr):
+        if fr.kind not in ("set", "expr") or not fr.loops or not _spells(fr.expr, "d.pop("):
             continue
-        n_p += 1
         pv = f"{fr.loops[-1]}[*]"
-        has_default = "UNSET" in fr.text
-        kind = "optional" if has_default else "required"
-        kinds_seen.add(kind)
-        # the form with the UNSET default is chosen exactly for properties that are not required (whatever the polarity of the test)
-        ok = tplq.implies(fr, f"{pv}.required", not has_default) and f"{pv}.name" in fr.text
-        rep.check(ok, "R10.3", f"model.py.jinja::from_dict::pop[{kind}]",
+        rq = f"{pv}.required"
+        names = list(dict.fromkeys(tplq.guard_atoms(fr) + tev.atoms(fr.expr, i) + [rq]))
+        rep.require(len(names) <= 12, f"a pop expression of from_dict that depends on at most 12 conditions (line {fr.line})")
+        named[i] = f"{pv}.name" in tev.reads(fr.expr, i)
+        for env in tplq.assignments(names):
+            if tplq.guard_holds(fr, env):
+                txt = "".join(tev.consts(fr.expr, env, i))
+                forms.append((i, env[rq], bool(re.search(r"\bUNSET\b", txt)), fr, txt))
+    for required, kind in ((True, "required"), (False, "optional")):
+        mine = [f_ for f_ in forms if f_[1] == required]
+        bad = [f_ for f_ in mine if f_[2] == required or not named[f_[0]]]
+        at_line = (bad or mine)[0][3].line if (bad or mine) else 0
+        rep.check(bool(mine) and not bad, "R10.3", f"model.py.jinja::from_dict::pop[{kind}]",
                   "pop form does not match requiredness (optional keys need the UNSET default, required keys none)",
-                  where=f"{PKG}/templates/model.py.jinja:{fr.line}", lhs=[fr.text, [g for g, _ in fr.guards]], rhs="d.pop(name, UNSET) iff not required")
+                  where=f"{PKG}/templates/model.py.jinja:{at_line}",
+                  lhs=[[f_[4], [g for g, _ in f_[3].guards]] for f_ in (bad or mine)[:2]], rhs="d.pop(name, UNSET) iff not required")
+    kinds_seen = {"optional" if d_ else "required" for _, _, d_, _, _ in forms}
     rep.check(kinds_seen == {"optional", "required"}, "R10.3", "model.py.jinja::from_dict::pop-forms", "from_dict no longer has one pop form "
               "for required and one for optional keys", where=f"{PKG}/templates/model.py.jinja", lhs=sorted(kinds_seen), rhs=["optional", "required"])
-    rep.floor("from_dict_pop_forms", n_p, 2)
+    rep.floor("from_dict_pop_forms", len({(i, d_) for i, _, d_, _, _ in forms}), 1)
 
     # ---- R10.6 declaration order -------------------------------------------------------------------------------------------
     # the class body declares its attributes in passes (loops); a declaration is mandatory when the property is required and has no
@@ -203,7 +216,7 @@ def run(rep: Report, ctx: Any) -> str:
             k_ = (fr.loops, tuple(id(g) for g in fr.guard_nodes if f"{fr.loops[-1]}[*]." in expr_text(g)))
             if not any(k_ == q for q, _ in passes):
                 passes.append((k_, fr))
-    rep.floor("declaration_passes", len(passes), 2)
+    rep.floor("declaration_passes", len(passes), 1)
     can: list[tuple[bool, bool]] = []
     for i, (_, fr) in enumerate(passes):
         pv = f"{fr.loops[-1]}[*]"
@@ -263,7 +276,7 @@ def run(rep: Report, ctx: Any) -> str:
                 rep.fail("R10.7", f"{short(f)}::{attr}-set-in-place", f"`{attr}` of an existing object is changed in place ({norm(n)[:70]}): the "
                          "object may be shared with another model or endpoint, whose declaration changes with it", where(f, n),
                          lhs=norm(n)[:80], rhs=f"evolve(<prop>, {attr}=...)")
-    rep.floor("attribute_stores_scanned", n_stores, 5)
+    rep.floor("attribute_stores_scanned", n_stores, 32)
     rep.ok("R10.7", "package::no-in-place-requiredness", n_stores, "no store to .required / .default")
 
     # ---- R10.4 ---------------------------------------------------------------------------------------------------------
@@ -356,14 +369,14 @@ def run(rep: Report, ctx: Any) -> str:
             n_ck += 1
             req = f"{fr.loops[-1]}[*].required"
             prev = _prev_data(ck.body, fr.node) or ""
-            if "is not UNSET" in prev:
+            if _tests_unset(prev):
                 rep.check(tplq.implies(fr, req, False), "R10.5", "cookie_params::guarded", "guard misplaced",
                           where=f"{PKG}/templates/{em.name}:{fr.line}")
             else:
                 rep.check(tplq.implies(fr, req, True), "R10.5", "cookie_params::unguarded",
                           "an optional cookie is sent without an UNSET test", where=f"{PKG}/templates/{em.name}:{fr.line}",
                           lhs=fr.guards, rhs="implies parameter.required")
-    rep.floor("cookie_writes", n_ck, 2)
+    rep.floor("cookie_writes", n_ck, 1)
     # path parameters must be required
     vl = proto.methods.get("validate_location")
     rep.require(vl, "validate_location")
@@ -388,6 +401,12 @@ def run(rep: Report, ctx: Any) -> str:
     rep.not_decided.append("run-time values of attributes; nullable without type or composition falls through handle_nullable (observation)")
     rep.observe("Schema.handle_nullable: `nullable: true` on a schema without type/oneOf/anyOf/allOf is ignored")
     return LEVEL
+
+
+def _tests_unset(text: str) -> bool:
+    """the generated line opens a block that runs only for a value that is not the UNSET sentinel (identity with the singleton or
+    an instance test of its class - both are how the generated code asks)"""
+    return bool(re.search(r"\bis not UNSET\b|\bnot isinstance\([^()]*,\s*Unset\)", text))
 
 
 def _nullable_paths(fn: ast.AST, nullable: bool, shape: str) -> list[SimPath]:
@@ -479,6 +498,84 @@ def _macro_call(c: nodes.Node, ti: Any) -> "tuple[nodes.Macro, nodes.Call] | Non
     return None
 
 
+def _frag(kind: str, text: str, line: int, guards: tuple, gnodes: tuple, loops: tuple, node: Any, expr: Any = None,
+          target: "str | None" = None) -> tplq.Frag:
+    """a tplq.Frag that also carries the expression in the caller's terms (`expr`) and, for a `set`, the canonical name of the
+    variable it defines (`target`)"""
+    fr = tplq.Frag(kind, text, line, guards, gnodes, loops, node)
+    fr.expr = expr          # type: ignore[attr-defined]
+    fr.target = target      # type: ignore[attr-defined]
+    return fr
+
+
+def _spells(e: Any, needle: str) -> bool:
+    """the expression itself contains a string constant with this text"""
+    if e is None:
+        return False
+    return any(isinstance(c, nodes.Const) and isinstance(c.value, str) and needle in c.value for c in [e, *e.find_all(nodes.Const)])
+
+
+HOLE = "\u2039\u203a"  # stands for a part of a template expression that is not a string constant
+
+
+class _TplEval:
+    """What a template expression evaluates to, as far as its string constants go, under a valuation of the conditions it depends
+    on: a conditional expression selects one arm; a `set` variable stands for its definition - the last one before the reading
+    site whose guards hold (jinja_canon gives the variable one name in all its definitions and uses).  Writing a decision as
+    `{% if %}` around two `set`s, as a conditional expression inside one, or through a helper variable is the same to this."""
+
+    DEPTH = 3
+
+    def __init__(self, frs: list[tplq.Frag]):
+        self.defs: dict[str, list[tuple[int, tplq.Frag]]] = {}
+        for i, fr in enumerate(frs):
+            if fr.kind == "set" and getattr(fr, "target", None):
+                self.defs.setdefault(fr.target, []).append((i, fr))  # type: ignore[attr-defined]
+
+    def _reaching(self, name: str, at: int) -> list[tuple[int, tplq.Frag]]:
+        return [(i, d) for i, d in self.defs.get(name, ()) if i < at]
+
+    def atoms(self, e: nodes.Node, at: int, depth: int = 0) -> list[str]:
+        """the conditions the value of e depends on (tests of conditional expressions, guards of the definitions it reads)"""
+        out: list[str] = []
+        for n in [e, *e.find_all((nodes.CondExpr, nodes.Name))]:
+            if isinstance(n, nodes.CondExpr):
+                out += tplq.atoms(n.test)
+            elif isinstance(n, nodes.Name) and depth < self.DEPTH:
+                for i, d in self._reaching(n.name, at):
+                    out += tplq.guard_atoms(d) + self.atoms(d.expr, i, depth + 1)  # type: ignore[attr-defined]
+        return list(dict.fromkeys(out))
+
+    def consts(self, e: "nodes.Node | None", env: dict[str, bool], at: int, depth: int = 0) -> list[str]:
+        """the string constants that make up the value of e under env, in source order, HOLE for everything else"""
+        if e is None:
+            return []
+        if isinstance(e, nodes.Const):
+            return [e.value if isinstance(e.value, str) else HOLE]
+        if isinstance(e, nodes.TemplateData):
+            return [e.data]
+        if isinstance(e, nodes.CondExpr):
+            return self.consts(e.expr1 if tplq.evaluate(e.test, env) else e.expr2, env, at, depth)
+        if isinstance(e, nodes.Name):
+            live = [(i, d) for i, d in self._reaching(e.name, at) if tplq.guard_holds(d, env)] if depth < self.DEPTH else []
+            if live:
+                return self.consts(live[-1][1].expr, env, live[-1][0], depth + 1)  # type: ignore[attr-defined]
+            return [HOLE]
+        out: list[str] = []
+        for ch in e.iter_child_nodes():
+            out += self.consts(ch, env, at, depth)
+        return out or [HOLE]
+
+    def reads(self, e: nodes.Node, at: int, depth: int = 0) -> str:
+        """text of e and of the definitions it reads"""
+        out = [expr_text(e)]
+        if depth < self.DEPTH:
+            for n in [e, *e.find_all(nodes.Name)]:
+                if isinstance(n, nodes.Name):
+                    out += [self.reads(d.expr, i, depth + 1) for i, d in self._reaching(n.name, at)]  # type: ignore[attr-defined]
+        return " <- ".join(out)
+
+
 def _frags(body: list[nodes.Node], ti: Any, guards: tuple = (), gnodes: tuple = (), loops: tuple = (), binding: "dict[str, Any] | None" = None,
            stack: tuple = (), tests: "list[nodes.Node] | None" = None, sets: bool = False) -> Iterator[tplq.Frag]:
     """tplq.frags, plus: the filter of a `for ... if cond` loop is a guard of the loop body (it is the same decision as an `if`
@@ -498,7 +595,7 @@ def _frags(body: list[nodes.Node], ti: Any, guards: tuple = (), gnodes: tuple = 
         if isinstance(n, nodes.Output):
             for c in n.nodes:
                 if isinstance(c, nodes.TemplateData):
-                    yield tplq.Frag("data", c.data, c.lineno, guards, gnodes, loops, c)
+                    yield _frag("data", c.data, c.lineno, guards, gnodes, loops, c)
                     continue
                 mc = _macro_call(c, ti)
                 if mc is not None and mc[0].name not in stack and len(stack) < 4:
@@ -515,7 +612,7 @@ def _frags(body: list[nodes.Node], ti: Any, guards: tuple = (), gnodes: tuple = 
                     yield from _frags(macro.body, ti, guards, gnodes, loops, b2, stack + (macro.name,), tests, sets)
                     continue
                 c2 = _clone(c, b) if b else c
-                yield tplq.Frag("expr", expr_text(c2), c.lineno, guards, gnodes, loops, c)
+                yield _frag("expr", expr_text(c2), c.lineno, guards, gnodes, loops, c, expr=c2)
         elif isinstance(n, nodes.If):
             t0 = cond(n.test)
             t = expr_text(t0)
@@ -541,7 +638,9 @@ def _frags(body: list[nodes.Node], ti: Any, guards: tuple = (), gnodes: tuple = 
                 yield from _frags(n.else_, ti, guards, gnodes, loops, b, stack, tests, sets)
         elif isinstance(n, nodes.Assign):
             if sets:
-                yield tplq.Frag("set", expr_text(_clone(n.node, b) if b else n.node), n.lineno, guards, gnodes, loops, n)
+                v2 = _clone(n.node, b) if b else n.node
+                yield _frag("set", expr_text(v2), n.lineno, guards, gnodes, loops, n, expr=v2,
+                            target=n.target.name if isinstance(n.target, nodes.Name) else None)
         elif isinstance(n, (nodes.With, nodes.Scope, nodes.CallBlock, nodes.FilterBlock, nodes.AssignBlock)):
             yield from _frags(getattr(n, "body", []), ti, guards, gnodes, loops, b, stack, tests, sets)
         elif isinstance(n, nodes.Macro):
